@@ -22,6 +22,7 @@ inductive Val where
   | list (spine : Val) | tup (spine : Val)
   | fnil | field (name : String) (v rest : Val) -- spine of an object's attributes
   | obj (cls : String) (fields : Val)          -- an instance (dataclass, enum member, anything seen through its attributes)
+  | dict (entries : Val)                       -- a `dict`: spine of `tup (key, value)` in insertion order
   deriving Repr, DecidableEq, Inhabited
 
 def Val.ofList : List Val → Val
@@ -74,6 +75,7 @@ inductive Expr where
   | allGen (v : String) (it c e : Expr)         -- `all(e for v in it if c)`, short-circuit
   | nextGen (v : String) (it c e : Expr)        -- `next(e for v in it if c)`: the first one (`StopIteration` if none)
   | maxGen (v : String) (it c e : Expr)         -- `max(e for v in it if c)` on ints (`ValueError` if none)
+  | contains (a b : Expr)                       -- `a in b` (keys of a dict, elements of a list / tuple)
   | comp (v : String) (it c e : Expr)           -- `[e for v in it if c]` / `filter(lambda v: c, it)` made a list
   | maxKey (v : String) (it key : Expr)         -- `max(it, key=lambda v: key)`: the first element whose key is largest
   deriving Repr, DecidableEq, Inhabited
@@ -129,6 +131,7 @@ def truth : Val → M Bool
   | .td us => .ok (us != 0)
   | .list sp => .ok (sp != .nil)
   | .tup sp => .ok (sp != .nil)
+  | .dict sp => .ok (sp != .nil)
   | .obj cls _ => if cls.startsWith "sized:" then unsupported "truth of a sized object" else .ok true
   | _ => unsupported "truth"
 
@@ -183,6 +186,20 @@ def seqOf : Val → Option (List Val)
   | .tup sp => sp.toList?
   | _ => none
 
+/-- the entries of a dict as (key, value) pairs -/
+def dictEntries (sp : Val) : Option (List (Val × Val)) :=
+  match sp.toList? with
+  | some l => l.mapM fun e => match e with
+    | .tup (.cons k (.cons v .nil)) => some (k, v)
+    | _ => Option.none
+  | Option.none => Option.none
+
+def encEntries (l : List (Val × Val)) : Val := Val.ofList (l.map fun kv => .tup (.cons kv.1 (.cons kv.2 .nil)))
+
+/-- `d[k] = v`: an existing key keeps its position -/
+def dictSet (l : List (Val × Val)) (k v : Val) : List (Val × Val) :=
+  if l.any (·.1 == k) then l.map fun kv => if kv.1 == k then (k, v) else kv else l ++ [(k, v)]
+
 /-- `v.name` -/
 def attrVal (v : Val) (name : String) : M Val :=
   match v with
@@ -193,6 +210,13 @@ def attrVal (v : Val) (name : String) : M Val :=
 
 /-- `v[w]` on a list / tuple -/
 def indexVal (v w : Val) : M Val :=
+  match v with
+  | .dict sp => match dictEntries sp with
+    | some l => match l.find? (·.1 == w) with
+      | some kv => .ok kv.2
+      | Option.none => .error (.internal "KeyError")
+    | Option.none => unsupported "dict"
+  | _ =>
   match seqOf v, w with
   | some l, .int k =>
     match normIdx k l.length with
@@ -356,6 +380,14 @@ def evalExpr (ext : Ext) (env : Env) : Expr → M Val
         | some m => .ok (.int m)
         | none => unsupported "max of non-ints"
     | none => unsupported "iteration"
+  | .contains a b => evalExpr ext env a >>= fun x => evalExpr ext env b >>= fun c =>
+    match c with
+    | .dict sp => match dictEntries sp with
+      | some l => .ok (.bool (l.any (·.1 == x)))
+      | none => unsupported "dict"
+    | _ => match seqOf c with
+      | some l => .ok (.bool (l.any (· == x)))
+      | none => unsupported "in"
   | .maxKey v it key => evalExpr ext env it >>= fun l =>
     match seqOf l with
     | some [] => .error .valueError
@@ -381,6 +413,9 @@ def appendVal (l v : Val) : M Val :=
 /-- `l[k] = v` on a list -/
 def setAt (l k v : Val) : M Val :=
   match l, k with
+  | .dict sp, k => match dictEntries sp with
+    | some es => .ok (.dict (encEntries (dictSet es k v)))
+    | Option.none => unsupported "dict"
   | .list sp, .int k => match sp.toList? with
     | some xs => match normIdx k xs.length with
       | some j => .ok (.list (Val.ofList (xs.set j v)))
